@@ -22,7 +22,7 @@ func init() {
 	engines["C18"] = &engine{N: tierN(0, 0), Whole: c18Whole}
 }
 
-const c18NumOperands = 29
+const c18NumOperands = 32
 
 var c18OpNames = []string{"Add", "Sub", "Mul", "Sqr", "Quo", "FMA", "Sqrt", "Cmp", "Text", "Format", "Float64", "Int", "Rat", "Gob", "MarshalText", "Set", "Float"}
 
@@ -155,8 +155,23 @@ func c18Whole(c *hx.Ctx) {
 	vals = append(vals,
 		oracle.Val{Form: oracle.Finite, Coef: new(big.Int).Mul(hx.CoefOf(r.Digits(30)), oracle.Pow10(57)), Exp: -60},
 		oracle.Val{Form: oracle.Finite, Coef: big.NewInt(1), Exp: 40})
+	// zeros and an infinity in variables that held finite values before (leftover exponent and mantissa fields)
+	vals = append(vals, oracle.Val{Form: oracle.Zero}, oracle.Val{Form: oracle.Zero, Neg: true}, oracle.Val{Form: oracle.Inf, Neg: true})
 	ops := make([]*decimal.Decimal, len(vals))
 	for i, v := range vals {
+		if i >= len(vals)-3 {
+			d := hx.Mk(r.Finite(r.Range(5, 60), int64(r.Range(3, 40))), 0, r.Mode())
+			if v.Form == oracle.Zero {
+				d.Sub(d, d)
+				if v.Neg {
+					d.Neg(d)
+				}
+			} else {
+				d.SetInf(v.Neg)
+			}
+			ops[i] = d
+			continue
+		}
 		ops[i] = hx.Mk(v, digitsOf(v)+uint(r.Intn(20)), r.Mode())
 	}
 	// job table
@@ -185,19 +200,52 @@ func c18Whole(c *hx.Ctx) {
 		}
 		jobs[i] = j
 	}
-	// sequential reference, computed twice (a getter that writes would already show here)
 	before := make([]hx.Raw, len(ops))
 	for i, o := range ops {
 		before[i] = hx.RawOf(o)
 	}
+	// Cold start: the first operation of every kind this process ever executes runs in several goroutines at once,
+	// released together (state that the library builds on first use must be built safely). The results are compared
+	// with the sequential reference below.
+	var cold []int
+	seenKind := map[int]bool{}
+	for i, j := range jobs {
+		if !seenKind[j.op] && j.prec <= 400 {
+			seenKind[j.op] = true
+			cold = append(cold, i)
+		}
+	}
+	const coldG = 8
+	coldRes := make([][]string, coldG)
+	{
+		c.Begin(0, fmt.Sprintf("cold start: %d goroutines x first use of %d operation kinds", coldG, len(cold)))
+		start := make(chan struct{})
+		var wg sync.WaitGroup
+		for g := 0; g < coldG; g++ {
+			coldRes[g] = make([]string, len(cold))
+			wg.Add(1)
+			go func(g int) {
+				defer wg.Done()
+				<-start
+				for n := range cold {
+					i := (n + (g/2)*3) % len(cold) // goroutines 2k and 2k+1 walk the list in the same order: same kind at the same time
+					coldRes[g][i] = c18Exec(jobs[cold[i]], ops)
+				}
+			}(g)
+		}
+		close(start)
+		wg.Wait()
+		c.Count("cold_start_operations", int64(coldG*len(cold)))
+	}
+	// sequential reference, computed twice (a getter that writes would already show here)
 	ref := make([]string, njobs)
 	for i, j := range jobs {
 		c.Begin(int64(i), fmt.Sprintf("sequential reference job %d %s(x=#%d y=#%d u=#%d prec=%d mode=%d)", i, c18OpNames[j.op], j.x, j.y, j.u, j.prec, j.mode))
 		ref[i] = c18Exec(j, ops)
 		// a read-only use must leave its operands bit-identical (checked at once: a damaged operand may make a later job loop)
 		for _, oi := range []int{j.x, j.y, j.u} {
-			if !before[oi].Same(hx.RawOf(ops[oi])) {
-				c.Violate("operand-modified", fmt.Sprintf("operand %d was modified by %s used sequentially as a read-only operation: %s -> %s", oi, c18OpNames[j.op], briefRaw(before[oi]), briefRaw(hx.RawOf(ops[oi]))), "")
+			if !before[oi].Identical(hx.RawOf(ops[oi])) {
+				c.Violate("operand-modified", fmt.Sprintf("operand %d was modified by %s used sequentially as a read-only operation: %s -> %s", oi, c18OpNames[j.op], briefRaw(before[oi]), briefRaw(hx.RawOf(ops[oi])))+expFields(before[oi], hx.RawOf(ops[oi])), "")
 				return
 			}
 		}
@@ -210,13 +258,23 @@ func c18Whole(c *hx.Ctx) {
 		}
 	}
 	for i, o := range ops {
-		if !before[i].Same(hx.RawOf(o)) {
+		if !before[i].Identical(hx.RawOf(o)) {
 			c.Begin(int64(i), "sequential operand check")
-			c.Violate("operand-modified", fmt.Sprintf("operand %d was modified by sequential use as an operand: %s -> %s", i, briefRaw(before[i]), briefRaw(hx.RawOf(o))), "")
+			c.Violate("operand-modified", fmt.Sprintf("operand %d was modified by sequential use as an operand: %s -> %s", i, briefRaw(before[i]), briefRaw(hx.RawOf(o)))+expFields(before[i], hx.RawOf(o)), "")
 			return
 		}
 	}
 	c.Count("sequential_reference_jobs", int64(njobs))
+	for g := range coldRes {
+		for n, i := range cold {
+			if coldRes[g][n] != ref[i] {
+				c.Begin(int64(i), "cold start")
+				j := jobs[i]
+				c.Violate("concurrent-result-differs", fmt.Sprintf("cold start: job %d %s(x=#%d y=#%d u=#%d prec=%d mode=%d) run as one of the first operations of the process in %d goroutines gave %.300q, sequentially %.300q", i, c18OpNames[j.op], j.x, j.y, j.u, j.prec, j.mode, coldG, coldRes[g][n], ref[i]), "")
+				return
+			}
+		}
+	}
 
 	reps := 4
 	if c.Tier == "thorough" {
@@ -283,8 +341,8 @@ func c18Whole(c *hx.Ctx) {
 			c.Eval(uint64(caseNo)<<20|uint64(c.Shard), true, fmt.Sprintf("config/procs%d-goroutines%d", cf.procs, cf.goroutines))
 			c.Count("concurrent_operations", int64(cf.goroutines)*int64(map[bool]int{true: njobs / 6, false: njobs / 2}[cf.goroutines > 16]))
 			for i, o := range ops {
-				if !before[i].Same(hx.RawOf(o)) {
-					c.Violate("operand-modified", fmt.Sprintf("shared operand %d changed during concurrent read-only use: %s -> %s", i, briefRaw(before[i]), briefRaw(hx.RawOf(o))), "")
+				if !before[i].Identical(hx.RawOf(o)) {
+					c.Violate("operand-modified", fmt.Sprintf("shared operand %d changed during concurrent read-only use: %s -> %s", i, briefRaw(before[i]), briefRaw(hx.RawOf(o)))+expFields(before[i], hx.RawOf(o)), "")
 					return
 				}
 			}
@@ -312,4 +370,12 @@ func c18Whole(c *hx.Ctx) {
 	c.Count("hit_karatsuba", int64(old[decimal.VerifSiteKaratsuba]))
 	c.Count("hit_div_recursive", int64(old[decimal.VerifSiteDivRecursive]))
 	c.Sample("workload", fmt.Sprintf("%d shared operands (%v digits), %d jobs over %v, configurations %v x %d repetition(s)", len(ops), sizes, njobs, c18OpNames, configs, reps))
+}
+
+// expFields names the exponent fields of two snapshots when they are all that differs (leftover field of a zero or an infinity).
+func expFields(a, b hx.Raw) string {
+	if a.Exp != b.Exp && a.Class != 1 {
+		return fmt.Sprintf(" (exponent field, as BitsExp shows it: %d -> %d)", a.Exp, b.Exp)
+	}
+	return ""
 }
